@@ -8,6 +8,7 @@ package c20
 
 import (
 	"encoding/binary"
+	"fmt"
 	"math"
 	"os"
 	"runtime"
@@ -16,6 +17,7 @@ import (
 	"syscall"
 	"testing"
 
+	"verif/internal/ev"
 	"verif/refcodec"
 )
 
@@ -61,6 +63,7 @@ func FuzzReadResponse(f *testing.F) {
 			lim := syscall.Rlimit{Cur: 6 << 30, Max: 6 << 30}
 			syscall.Setrlimit(syscall.RLIMIT_AS, &lim)
 			debug.SetMaxStack(workerStack)
+			blockCodecs()
 		})
 		a := &refcodec.APIs[int(apiIndex)%len(refcodec.APIs)]
 		ver := a.Min + int16(version)%(a.Max-a.Min+1)
@@ -68,15 +71,22 @@ func FuzzReadResponse(f *testing.F) {
 		runtime.ReadMemStats(&m0)
 		r := decodeRead(a.Key, ver, frame)
 		runtime.ReadMemStats(&m1)
-		if r.Outcome == "panic" {
-			t.Fatalf("ORACLE-FAIL sig=c20/panic/%s/fuzz: %s v%d ReadResponse panicked on %d bytes: %s", a.Name, a.Name, ver, len(frame), r.Msg)
+		kind := "fuzz"
+		fail := func(sig, format string, args ...any) {
+			if _, known := ev.IsKnown(sig); known {
+				return // a listed finding: keep fuzzing past it
+			}
+			t.Fatalf("ORACLE-FAIL sig=%s: %s", sig, fmt.Sprintf(format, args...))
+		}
+		if r.Outcome == "panic" && !inDecompressor(r.Msg) {
+			fail(fmt.Sprintf("c20/panic/%s/%s", a.Name, kind), "%s v%d ReadResponse panicked on %d bytes: %s", a.Name, ver, len(frame), r.Msg)
 		}
 		if alloc, b := m1.TotalAlloc-m0.TotalAlloc, allocBound(len(frame)); alloc > b {
-			t.Fatalf("ORACLE-FAIL sig=c20/alloc/%s/fuzz: %s v%d ReadResponse allocated %d bytes for %d bytes received (bound %d); outcome %s %s", a.Name, a.Name, ver, alloc, len(frame), b, r.Outcome, r.Msg)
+			fail(fmt.Sprintf("c20/alloc/%s/%s/fuzz", a.Name, kind), "%s v%d ReadResponse allocated %d bytes for %d bytes received (bound %d); outcome %s %s", a.Name, ver, alloc, len(frame), b, r.Outcome, r.Msg)
 		}
 		if len(frame) >= 4 {
 			if s := int32(binary.BigEndian.Uint32(frame)); s >= 0 && r.Consumed > 4+int(s) {
-				t.Fatalf("ORACLE-FAIL sig=c20/overrun/%s/fuzz: %s v%d: frame announces %d bytes, decoder consumed %d", a.Name, a.Name, ver, s, r.Consumed)
+				fail(fmt.Sprintf("c20/overrun/%s/%s", a.Name, kind), "%s v%d: frame announces %d bytes, decoder consumed %d", a.Name, ver, s, r.Consumed)
 			}
 		}
 	})
